@@ -174,6 +174,15 @@ func CheckCase(cs Case) *ev.Violation {
 	if v := allShow(t, want2); v != nil {
 		return v
 	}
+	// Update on a free-standing by-value copy of the table's cell concerns that copy only
+	cp := *tc
+	cp.Update()
+	if cp.String() != gen.TextForm(cs.Item, live2) {
+		return ev.V("a by-value copy of the cell, updated, shows %q, the item now reads %q", cp.String(), gen.TextForm(cs.Item, live2))
+	}
+	if v := observe("in table, after Update() of a by-value copy only", tc, want2, live2.V); v != nil {
+		return v
+	}
 	newWant := gen.TextForm(cs.Item, live)
 	c.Update()
 	if v := observe("after mutation and Update", &c, newWant, live.V); v != nil {
